@@ -179,6 +179,30 @@ func c10Codec(ns *namedSet, withPercent bool, s string) *fw.Finding {
 	return nil
 }
 
+var c10SingleParser = url.NewParser(url.WithPercentEncodeSinglePercentSign())
+
+// c10CodecSingle: under percent-encode-single-percent-sign a '%' that does not start a valid escape becomes
+// %25; everything else - in particular every existing escape, wherever it stands - is as without the option.
+func c10CodecSingle(ns *namedSet, s string) *fw.Finding {
+	var enc string
+	if p := safely(func() { enc = c10SingleParser.PercentEncodeString(s, ns.Get()) }); p != "" {
+		return fw.F("panic", s, "PercentEncodeString(%q) with the single-percent option panicked: %s", s, p)
+	}
+	var sb strings.Builder
+	rs := []rune(s)
+	for i, r := range rs {
+		if r == '%' && !(i+2 < len(rs) && rs[i+1] < 0x80 && rs[i+2] < 0x80 && isHexB(byte(rs[i+1])) && isHexB(byte(rs[i+2]))) {
+			sb.WriteString("%25")
+			continue
+		}
+		model.EncodeRune(&sb, r, ns.Pred)
+	}
+	if want := sb.String(); enc != want {
+		return fw.F("encode-single-percent", s, "with WithPercentEncodeSinglePercentSign, PercentEncodeString(%q, %s) = %q, expected %q (only a '%%' that does not start an escape becomes %%25; existing escapes stay untouched)", s, ns.Name, enc, want)
+	}
+	return nil
+}
+
 func isUpperHex(b byte) bool { return (b >= '0' && b <= '9') || (b >= 'A' && b <= 'F') }
 
 func init() {
@@ -187,6 +211,9 @@ func init() {
 	})
 	fw.RegisterEvaluator("c10-derive", func(cs *fw.Case) *fw.Finding {
 		return c10Derive(setByName(string(cs.S[0])), string(cs.S[1]), uint(cs.N[0]), string(cs.S[2]), uint(cs.N[1]))
+	})
+	fw.RegisterEvaluator("c10-codec-single", func(cs *fw.Case) *fw.Finding {
+		return c10CodecSingle(setByName(string(cs.S[0])), string(cs.S[1]))
 	})
 	fw.RegisterEvaluator("c10-codec", func(cs *fw.Case) *fw.Finding {
 		return c10Codec(setByName(string(cs.S[0])), cs.N[0] == 1, string(cs.S[1]))
@@ -197,7 +224,7 @@ func init() {
 		Level: "exploration",
 		Rule: "(a) complete membership tables: all 0x110000 code points x the six named sets against the standard's predicates; (b) derivations: Set/Clear of every byte 0..0xFF on every named set and all two-step chains over 0x20..0x7E, " +
 			"with the parent's membership table fingerprinted before/after; (c) codec laws on every string of SigmaP^<=k (15 symbols incl. %, space, quote, DEL, NUL, 2/3/4-byte and an invalid byte) x {six named sets, each also with '%' added}: " +
-			"equality with the standard's encoder/decoder, idempotence, decode-after-encode laws, no member left, upper-case escapes. non-trivial = (code point, set) pairs that are members / derivations that change membership / strings whose encoding differs from the input",
+			"equality with the standard's encoder/decoder (also through a Parser with percent-encode-single-percent-sign, where only a lone % may differ), idempotence, decode-after-encode laws, no member left, upper-case escapes. non-trivial = (code point, set) pairs that are members / derivations that change membership / strings whose encoding differs from the input",
 		Assume:  []string{"the standard's set definitions as transcribed in verif/model (cross-checked by WPT through C01)"},
 		Trusted: []string{"verif/model predicates"},
 		Body: func(c *fw.Ctx) {
@@ -262,6 +289,10 @@ func init() {
 				s := string(b)
 				for i := range namedSets {
 					ns := &namedSets[i]
+					c.Eval()
+					if f := c10CodecSingle(ns, s); f != nil {
+						c.Report(f, func() *fw.Case { return &fw.Case{Kind: "c10-codec-single", S: fw.Strs(ns.Name, s)} })
+					}
 					for wp := 0; wp < 2; wp++ {
 						c.Eval()
 						if f := c10Codec(ns, wp == 1, s); f != nil {
